@@ -826,6 +826,9 @@ class _FunctionInformationCollector(ast.RopeNodeVisitor):
         self.nonlocals_ = OrderedSet()
         self.surrounded_by_loop = 0
         self.loop_depth = 0
+        # open compound statements (or else-branches beside the region) in
+        # which a write after the region is not necessarily executed
+        self.post_nesting = 0
 
     def _read_variable(self, name, lineno):
         if self.start <= lineno <= self.end:
@@ -846,8 +849,18 @@ class _FunctionInformationCollector(ast.RopeNodeVisitor):
                 self.postread.add(name)
         if self.start > lineno:
             self.prewritten.add(name)
-        if self.end < lineno:
+        if self.end < lineno and self.post_nesting == 0:
             self.postwritten.add(name)
+
+    @contextmanager
+    def _post_nesting(self, nested):
+        if nested:
+            self.post_nesting += 1
+        try:
+            yield
+        finally:
+            if nested:
+                self.post_nesting -= 1
 
     def _FunctionDef(self, node):
         if not self.is_global and self.host_function:
@@ -948,7 +961,9 @@ class _FunctionInformationCollector(ast.RopeNodeVisitor):
             self._handle_conditional_node(node)
 
     def _For(self, node):
-        with self._handle_loop_context(node), self._handle_conditional_context(node):
+        with self._handle_loop_context(node), self._handle_conditional_context(
+            node
+        ), self._post_nesting(self.end < node.lineno):
             # iter has to be checked before the target variables
             self.visit(node.iter)
             self.visit(node.target)
@@ -959,9 +974,19 @@ class _FunctionInformationCollector(ast.RopeNodeVisitor):
                 self.visit(child)
 
     def _handle_conditional_node(self, node):
-        with self._handle_conditional_context(node):
-            for child in ast.iter_child_nodes(node):
+        with self._handle_conditional_context(node), self._post_nesting(
+            self.end < node.lineno
+        ):
+            self.visit(node.test)
+            for child in node.body:
                 self.visit(child)
+            # an else-branch beside the region is not on the way out of it
+            beside_region = bool(node.orelse) and (
+                node.lineno < self.start and self.end < node.orelse[0].lineno
+            )
+            with self._post_nesting(beside_region):
+                for child in node.orelse:
+                    self.visit(child)
 
     @contextmanager
     def _handle_conditional_context(self, node):
